@@ -2,8 +2,8 @@ package scen
 
 import (
 	"bytes"
-	"context"
 	"compress/gzip"
+	"context"
 	"encoding/base64"
 	"encoding/json"
 	"fmt"
@@ -35,21 +35,21 @@ type PreObj struct {
 
 type Step struct {
 	// operation step
-	Op    string         `json:"op,omitempty"` // install | upgrade | rollback | uninstall
-	Chart string         `json:"chart,omitempty"`
-	Vals  string         `json:"vals,omitempty"` // JSON object
-	Flags map[string]any `json:"flags,omitempty"`
-	Fault int            `json:"fault,omitempty"` // ordinal of the visible call to fail (0 = none)
-	Crash int            `json:"crash,omitempty"` // ordinal of the visible call before which the process dies
-	Expect string        `json:"expect,omitempty"` // "kind verb id" of the call the specification expects the fault to hit
-	Proc  int            `json:"proc,omitempty"`
-	Via   string         `json:"via,omitempty"` // "cli": run through pkg/cmd (command line) instead of the action API
+	Op     string         `json:"op,omitempty"` // install | upgrade | rollback | uninstall
+	Chart  string         `json:"chart,omitempty"`
+	Vals   string         `json:"vals,omitempty"` // JSON object
+	Flags  map[string]any `json:"flags,omitempty"`
+	Fault  int            `json:"fault,omitempty"`  // ordinal of the visible call to fail (0 = none)
+	Crash  int            `json:"crash,omitempty"`  // ordinal of the visible call before which the process dies
+	Expect string         `json:"expect,omitempty"` // "kind verb id" of the call the specification expects the fault to hit
+	Proc   int            `json:"proc,omitempty"`
+	Via    string         `json:"via,omitempty"` // "cli": run through pkg/cmd (command line) instead of the action API
 	// environment steps
-	Edit    *EditStep `json:"edit,omitempty"`
-	OobDel  string    `json:"oobdel,omitempty"`
-	OobNew  *PreObj   `json:"oobnew,omitempty"` // somebody else creates an object
-	OobKeep string    `json:"oobkeep,omitempty"`
-	OobUnkeep string  `json:"oobunkeep,omitempty"`
+	Edit      *EditStep `json:"edit,omitempty"`
+	OobDel    string    `json:"oobdel,omitempty"`
+	OobNew    *PreObj   `json:"oobnew,omitempty"` // somebody else creates an object
+	OobKeep   string    `json:"oobkeep,omitempty"`
+	OobUnkeep string    `json:"oobunkeep,omitempty"`
 }
 
 type EditStep struct {
@@ -77,6 +77,9 @@ type Env struct {
 	Lib    ChartLib
 	Driver string
 	mem    *driver.Memory
+	// FailRes, when set, makes the matching requests on release resources fail with a 500 (used by
+	// harnesses that drive operations outside a fault plan, e.g. the C13 chains)
+	FailRes func(method, id string) bool
 	// endGate, when set, is waited on before an operation's return is logged (schedule replay)
 	endGate func(proc int)
 }
@@ -132,6 +135,9 @@ func (e *Env) hook(proc int, method string, key simcluster.Key, storageReq bool)
 	id := key.Name
 	if id == "" {
 		id = key.Resource
+	}
+	if e.FailRes != nil && e.FailRes(method, id) {
+		return 500, nil
 	}
 	switch e.Rec.Enter(proc, "res", method, id, true) {
 	case DeadV:
@@ -426,7 +432,7 @@ func (e *Env) RunOp(proc, i int, s Step) (res OpResult) {
 		if e.endGate != nil {
 			e.endGate(proc)
 		}
-		e.Rec.Log(Event{Proc: proc, Step: i, Ev: "end", Op: s.Op, OK: res.Err == "", Err: res.Err, Info: res.Info, FaultHit: fdesc, Calls: calls})
+		e.Rec.Log(Event{Proc: proc, Step: i, Ev: "end", Op: s.Op, OK: res.Err == "", Err: res.Err, Info: res.Info, Kept: keptNames(res.Info), FaultHit: fdesc, Calls: calls})
 	}()
 	f := s.Flags
 	if f == nil {
@@ -437,8 +443,12 @@ func (e *Env) RunOp(proc, i int, s Step) (res OpResult) {
 		if len(e.Lib[s.Chart].CRDs) > 0 {
 			cfg.RESTClientGetter = &simcluster.Getter{F: &simcluster.Factory{RT: e.Sim.Transport(proc), Namespace: RelNS}}
 		}
-		if err := e.runCLI(cfg, s); err != nil {
+		out, err := e.runCLI(cfg, s)
+		if err != nil {
 			res.Err = err.Error()
+		}
+		if s.Op == "uninstall" {
+			res.Info = out // the response's Info is what the command prints before its closing line
 		}
 		return res
 	}
@@ -553,6 +563,20 @@ func opCtx(f map[string]any) context.Context {
 		return ctx
 	}
 	return context.Background()
+}
+
+// keptNames extracts the object names from the "[Kind] name" lines of UninstallReleaseResponse.Info.
+func keptNames(info string) []string {
+	out := []string{}
+	for _, l := range strings.Split(info, "\n") {
+		l = strings.TrimSpace(l)
+		if strings.HasPrefix(l, "[") {
+			if i := strings.Index(l, "] "); i > 0 {
+				out = append(out, strings.TrimSpace(l[i+2:]))
+			}
+		}
+	}
+	return out
 }
 
 // labelPostRenderer stands for "a post-renderer is configured": it passes the manifest through
